@@ -209,7 +209,13 @@ func runC12(c *Ctx) {
 	// ---- system under test ----
 	w.sink = zsim.NewSimSink(r, "disk", frag, uint64(g.Draw(1<<16))+1)
 	clk := zsim.NewSimClock(r, drawEpoch(g))
-	w.bws = &zapcore.BufferedWriteSyncer{WS: w.sink, Size: w.size, FlushInterval: time.Duration(1+g.Draw(60)) * time.Second}
+	// the device is handed over bare or, as most programs do, behind Lock
+	var dev zapcore.WriteSyncer = w.sink
+	if g.Chance(4) {
+		dev = zapcore.Lock(w.sink)
+		c.Describe("device behind zapcore.Lock")
+	}
+	w.bws = &zapcore.BufferedWriteSyncer{WS: dev, Size: w.size, FlushInterval: time.Duration(1+g.Draw(60)) * time.Second}
 	w.bws.Clock = clk.For(unsafe.Pointer(w.bws), unsafe.Sizeof(*w.bws))
 	r.Label(unsafe.Pointer(w.sink), "disk")
 	r.Label(unsafe.Pointer(clk), "clock")
@@ -694,7 +700,12 @@ func runC12faulty(c *Ctx) {
 	}
 	clk := zsim.NewSimClock(r, drawEpoch(g))
 	size := pick(g, 4, 8, 16, 32, 64)
-	b := &zapcore.BufferedWriteSyncer{WS: sink, Size: size, FlushInterval: time.Second}
+	var dev zapcore.WriteSyncer = sink
+	if g.Chance(3) {
+		dev = zapcore.Lock(sink)
+		c.Describe("device behind zapcore.Lock")
+	}
+	b := &zapcore.BufferedWriteSyncer{WS: dev, Size: size, FlushInterval: time.Second}
 	b.Clock = clk.For(unsafe.Pointer(b), unsafe.Sizeof(*b))
 	type fop struct {
 		kind byte
